@@ -652,6 +652,15 @@ func (w *World) Apply(op Op) ApplyResult {
 			return ApplyResult{Err: err, Clause: "open-error", Detail: "Open after clean Close: " + panicDetail(err)}
 		}
 		return ApplyResult{}
+	case "restartfs": // clean restart that reopens the directory with another DataFileSize (arg)
+		if err := w.Close(); err != nil {
+			return ApplyResult{Err: err, Clause: "close-error", Detail: "Close: " + panicDetail(err)}
+		}
+		w.Cfg.FileSize = int64(op.Arg)
+		if err := w.Open(); err != nil {
+			return ApplyResult{Err: err, Clause: "open-error", Detail: fmt.Sprintf("Open with DataFileSize %d after clean Close: %s", op.Arg, panicDetail(err))}
+		}
+		return ApplyResult{}
 	case "batch":
 		return w.applyBatch(op)
 	}
